@@ -2,7 +2,7 @@
 from .. import cfg as C
 from .. import hirx as H
 from ..flow import ExprBuilder, mentions_field, mentions_call, is_call, is_field, walk, show, cond_switches, \
-    guarded, seed_after_call, Sccp, I, V, X, strip, value_set
+    guarded, seed_after_call, Sccp, I, V, X, strip, value_set, cmp_stmts, cmp_truth, excluded_by_test
 from ..graph import field_rw, field_rw_deep, discr_switches
 from ..facts import op_const, op_place, fields_of_place
 from .. import wire as W
@@ -60,14 +60,21 @@ def rediscover_rule(ctx, r):
         ebc = ExprBuilder(c)
         cb = [x for x in c.calls() if x.is_("core::ops::function::FnMut::call_mut")]
 
-        def bound_test(e, ops):
-            return e.k == "bin" and e[1] in ops and mentions_call(e, "grep_matcher::Match::start") and \
-                any(y.k == "field" and y[3] == "range" for y in walk(e)) and \
-                mentions_call(e[2], "grep_matcher::Match::start")
-        ge = cond_switches(c, lambda e: bound_test(e, ("Ge",)), ebc)
-        lt = cond_switches(c, lambda e: bound_test(e, ("Lt",)), ebc)
-        ok = (ge and not guarded(c, [cb[0].bb], ge, False)) or (lt and not guarded(c, [cb[0].bb], lt, True))
-        if ok:
+        # comparisons of the match's start / end with range.end, wherever their answers go
+        def of_range(e):
+            return any(y.k == "field" and y[3] == "range" for y in walk(e))
+
+        def tests_for(getter, relation):
+            out = []
+            for bb, j, op, lhs, rhs in cmp_stmts(c, ebc):
+                for x, y, lhs_is_x in ((lhs, rhs, True), (rhs, lhs, False)):
+                    if mentions_call(x, getter) and not of_range(x) and of_range(y) and not mentions_call(y, "grep_matcher::Match::start", "grep_matcher::Match::end"):
+                        v = cmp_truth(op, lhs_is_x, relation)
+                        if v is not None:
+                            out.append((bb, j, v))
+            return out
+        beyond = excluded_by_test(c, tests_for("grep_matcher::Match::start", "Ge"), [cb[0].bb])
+        if beyond:
             r.ok("bound", "callback only for matches with start < range.end (a match starting at range.end is the next line's)", fn=c)
         else:
             r.bad("bound", "find_iter_at_in_context reports matches that start at (or after) the end of the reported range: "
@@ -75,24 +82,15 @@ def rediscover_rule(ctx, r):
         # ... and the match must lie inside the range altogether: in multi-line mode the haystack is cut off MAX_LOOK_AHEAD
         # bytes after the range, where `$` / `\\z` / `\\b` match at the artificial end; such a match reaches beyond the bytes the
         # printer holds for this event (slicing them panics)
-        def end_test(e):
-            return e.k == "bin" and e[1] in ("Gt", "Le", "Ge", "Lt") and mentions_call(e, "grep_matcher::Match::end") and \
-                any(y.k == "field" and y[3] == "range" for y in walk(e))
-        gt = cond_switches(c, end_test, ebc)
-        inside = False
-        for bb_, te_, fe_, e_ in gt:
-            keep = fe_ if e_[1] in ("Gt",) and mentions_call(e_[2], "grep_matcher::Match::end") else te_
-            drop_ = te_ if keep is fe_ else fe_
-            if cb[0].bb not in C.reach(c, [drop_[1]]):
-                inside = True
-        if inside:
+        if excluded_by_test(c, tests_for("grep_matcher::Match::end", "Gt"), [cb[0].bb]):
             r.ok("bound|end", "callback only for matches with end ≤ range.end", fn=c)
         else:
             r.bad("bound|end", "find_iter_at_in_context hands out matches that end beyond the reported range (found in the look-ahead "
                   "tail of the truncated haystack): JSON output and -r then slice past the event's bytes and panic", fn=c,
                   loc=cb[0].loc, construct="bound")
-        if ge:
-            s_ = Sccp(c).run([(ge[0][1][1], {})])
+        if beyond:
+            bb_, j_, v_ = beyond[0]
+            s_ = Sccp(c, stmt_values={(bb_, j_): I(v_)}).run([(bb_, {})])
             vals = {x for v in s_.ret_values.values() for x in value_set(v)}
             if vals == {I(0)}:
                 r.ok("stop", "start ≥ range.end ⇒ stop iterating", fn=c)
